@@ -34,3 +34,23 @@ impl Variables {
         self.0.contains_key(name)
     }
 }
+
+#[cfg(abasic_verif)]
+impl Variables {
+    /// Canonical text: `name=value` pairs sorted by name.
+    pub(crate) fn verif_snapshot(&self) -> String {
+        let mut items = self
+            .0
+            .iter()
+            .map(|(name, value)| {
+                let value = match value {
+                    Value::String(s) => format!("S{}", crate::verif::esc(s)),
+                    Value::Number(n) => format!("N{:016x}", crate::verif::bits(*n)),
+                };
+                format!("{}={}", crate::verif::esc(name.as_str()), value)
+            })
+            .collect::<Vec<_>>();
+        items.sort();
+        items.join(",")
+    }
+}
